@@ -63,21 +63,21 @@ Qed.
 
 Lemma init_InvL P lru correct : InvL P lru (init_net correct).
 Proof.
-  split.
+  split; [|split; [|split]].
   - intros k r rd ph m Hk Hin. destruct (init_rep _ _ _ Hk) as [root ->]. contradiction.
   - intros k r b s Hk Hc. destruct (init_rep _ _ _ Hk) as [root ->]. discriminate.
+  - intros k r hv Hk Hin. simpl in Hin. contradiction.
+  - intros k r hv1 hv2 Hk Hin. simpl in Hin. contradiction.
 Qed.
 
 Lemma init_Inv P lru correct : Inv P lru (map fst correct) (init_net correct).
 Proof.
   constructor.
   - apply init_ids.
-  - intros k r R rd ph b s Hk Hv. unfold VIn in Hv. simpl in Hv. contradiction.
   - intros k r l Hk Hl. destruct (init_rep _ _ _ Hk) as [root ->]. discriminate.
   - apply init_InvL.
   - intros k r R rd b s Hk Hv. unfold VIn in Hv. simpl in Hv. contradiction.
   - intros k R rd b s Hv. unfold VIn in Hv. simpl in Hv. contradiction.
-  - intros k r R rd b s b' s' Hk Hv. unfold VIn in Hv. simpl in Hv. contradiction.
   - intros R rd b s _ k r Hk Hv. unfold VIn in Hv. simpl in Hv. contradiction.
 Qed.
 
@@ -134,10 +134,10 @@ Qed.
 Theorem commit_certified powers lru (correct : list (N * N)) acts :
   NoDup (map fst correct) -> run_ok powers lru (init_net correct) acts ->
   forall i b s, In (i, (b, s)) (commits (run powers lru (init_net correct) acts)) ->
-  exists root round signers,
+  exists root round proposer signers,
     maj23 (mkConf i powers lru) <= set_power (mkConf i powers lru) signers /\
     forall k, In k signers -> existsb (N.eqb k) (map fst correct) = true ->
-      In (mkHV k (mkView root round Phase_PRECOMMIT_VOTE) b s) (n_votes (run powers lru (init_net correct) acts)).
+      In (mkHV k (mkView root round Phase_PRECOMMIT_VOTE) b s proposer) (n_votes (run powers lru (init_net correct) acts)).
 Proof.
   intros Hnd Hok i b s Hin.
   set (n := run powers lru (init_net correct) acts) in *.
@@ -145,8 +145,8 @@ Proof.
   assert (Hids : ids n = map fst correct) by (unfold n; rewrite run_ids; apply init_ids).
   apply commits_In in Hin. destruct Hin as [r [Hin Hc]].
   apply In_get_rep in Hin; [|rewrite Hids; exact Hnd].
-  destruct (proj2 HL _ _ _ _ Hin Hc) as [q [[Hf [Hp Hg]] [Hb Hs]]].
-  exists (vw_root (q_view q)), (vw_round (q_view q)), (q_signers q). split.
+  destruct (proj1 (proj2 HL) _ _ _ _ Hin Hc) as [q [[Hf [Hp Hg]] [Hb Hs]]].
+  exists (vw_root (q_view q)), (vw_round (q_view q)), (q_proposer q), (q_signers q). split.
   - pose proof Hf as Hf'. unfold full, qc_check in Hf'.
     destruct (negb (q_sigok q) || negb (forallb (is_validator (cf0 powers lru)) (q_signers q))); [discriminate|].
     destruct (N.leb_spec (maj23 (cf0 powers lru)) (set_power (cf0 powers lru) (q_signers q))) as [Hle|]; [|discriminate].
